@@ -22,7 +22,7 @@ def main():
             "evidence_file": "/verif/evidence/%s.json" % pid,
             "replay_cmd_template": "./check %s --replay {path}" % pid,
             "engine": "rocq-models",
-            "level_claimed": {"category": P.level, "text": P.level_text, "design_ref": P.design_ref},
+            "level_claimed": {"category": P.level if P.level in ("exploration","fault_enumeration","model_checking","proof","translation_validation","other") else "other", "text": P.level_text, "design_ref": P.design_ref},
             "level_note": P.level_note,
             "technique": P.technique,
         })
